@@ -43,6 +43,7 @@ type Net struct {
 	mu       sync.Mutex
 	Done     chan struct{}
 	Socks    []*UDPConn
+	open     []*UDPConn
 	Sent     []*Datagram
 	NextPort uint16
 	// OnSend is called synchronously by the sending goroutine after the
@@ -98,7 +99,7 @@ func (n *Net) Bound(ap netip.AddrPort) []*UDPConn {
 	n.mu.Lock()
 	defer n.mu.Unlock()
 	var r []*UDPConn
-	for _, s := range n.Socks {
+	for _, s := range n.open {
 		if !s.closed.Load() && s.laddr == ap {
 			r = append(r, s)
 		}
@@ -168,6 +169,7 @@ func (lc *ListenConfig) ListenPacket(ctx context.Context, network, address strin
 	}
 	c := &UDPConn{net: n, FD: FDBase + len(n.Socks), laddr: ap, rxq: make(chan *Datagram, 1024), Opts: map[[2]int]int{}}
 	n.Socks = append(n.Socks, c)
+	n.open = append(n.open, c)
 	n.mu.Unlock()
 	if lc.Control != nil {
 		if err := lc.Control(network, address, rawConn{c}); err != nil {
@@ -335,8 +337,26 @@ func (c *UDPConn) ErrQueueLen() int { return len(c.errq) }
 
 // Close is idempotent.
 func (c *UDPConn) Close() error {
-	c.closed.Store(true)
+	if c.closed.Swap(true) {
+		return nil
+	}
+	n := c.net
+	n.mu.Lock()
+	for i, o := range n.open {
+		if o == c {
+			n.open = append(n.open[:i:i], n.open[i+1:]...)
+			break
+		}
+	}
+	n.mu.Unlock()
 	return nil
+}
+
+// Open returns the sockets that are not closed, in creation order.
+func (n *Net) Open() []*UDPConn {
+	n.mu.Lock()
+	defer n.mu.Unlock()
+	return append([]*UDPConn{}, n.open...)
 }
 
 // LocalAddr returns a *net.UDPAddr like the real connection.
